@@ -12,9 +12,9 @@ Addrs == {0, 16777215} \cup {Pow2(k) : k \in 0..23} \cup Seeded
 Pats == 0..3
 Fill(p, k) == CASE p = 0 -> 0 [] p = 1 -> 255 [] p = 2 -> 170 [] OTHER -> (37 * k + 11) % 256
 
-Build(df, a, n, p) ==
+Build(df, a, n, p, cf) ==
   LET data == [k \in 1..(n - 3) |->
-                 IF k = 1 THEN df * 8 + (Fill(p, 1) % 8)
+                 IF k = 1 THEN df * 8 + cf
                  ELSE IF df \in AAFormats /\ k = 2 THEN a \div 65536
                  ELSE IF df \in AAFormats /\ k = 3 THEN (a \div 256) % 256
                  ELSE IF df \in AAFormats /\ k = 4 THEN a % 256
@@ -24,8 +24,10 @@ Build(df, a, n, p) ==
 
 Init == c = [df |-> -1]
 Next == /\ c.df = -1
-        /\ \E df \in 0..31, a \in Addrs, n \in {7, 14}, p \in Pats :
-             c' = [df |-> df, a |-> a, n |-> n, p |-> p, frame |-> Build(df, a, n, p)]
+        \* the three bits after the DF (CA / CF / FS ...) take every value for the all-zero pattern, a pattern-dependent one otherwise
+        /\ \E df \in 0..31, a \in Addrs, n \in {7, 14}, p \in Pats, cf \in 0..7 :
+             /\ (p = 0 \/ cf = Fill(p, 1) % 8)
+             /\ c' = [df |-> df, a |-> a, n |-> n, p |-> p, cf |-> cf, frame |-> Build(df, a, n, p, cf)]
 
 RoundTrip ==
   c.df >= 0 =>
